@@ -62,6 +62,7 @@ CAUSES = [
     ("C07-uin-conditional-effects", complib.cause_undefined_conditional),
     ("C07-static-conflict-coinciding-values", complib.cause_coinciding_values),
     ("C07-uin-read-simplified-away", complib.cause_undefined_read_simplified_away),
+    ("C07-ncr-add-after-delete", complib.cause_bool_add_and_delete),
 ]
 
 
@@ -72,7 +73,7 @@ def known_cause(payload):
     return None
 
 
-EXTRA_PROPS = ["UPVerif.Props.C07Lift", "UPVerif.Props.C07Ground", "UPVerif.Props.C07BTQR"]
+EXTRA_PROPS = ["UPVerif.Props.C07Lift", "UPVerif.Props.C07Ground", "UPVerif.Props.C07BTQR", "UPVerif.Props.C07NCR"]
 
 MANIFEST = {
     "level_text": ("Lean 4 theorems (Props/C07.lean): a generic backward-simulation theorem over abstract transition systems "
